@@ -168,6 +168,7 @@ structure St where
   cfgCpu : Nat := 1
   buckets : List (String × Bucket.TB) := []
   limiters : List (String × Bucket.RL) := []
+  srv : Option Server.St := none
 
 def findCache (st : St) (n : String) : Option CacheSlot := st.caches.find? (·.name == n)
 def setCache (st : St) (slot : CacheSlot) : St :=
@@ -477,6 +478,80 @@ def fsCmd (st : St) : List String → St × String
     | none => (st, "bad-op")
   | _ => (st, "bad-op")
 
+
+/-! ### srv: the server model -/
+
+def srvSeed (s : Server.St) : List String → Option Server.St
+  | ["mkdir", p] => match fromHex p with
+    | some p => (match Fs.mkdir s.fs (Server.fsPath p) 0o755 with | .ok f => some { s with fs := f } | .error _ => none)
+    | none => none
+  | ["file", p, d] => match fromHex p, fromHex d with
+    | some p, some d =>
+      (match Fs.create s.fs (Server.fsPath p) with
+       | .error _ => none
+       | .ok f => match Fs.writeAt f (Server.fsPath p) 0 d with
+         | .ok (f2, _) => some { s with fs := f2 }
+         | .error _ => none)
+    | _, _ => none
+  | ["link", p, t] => match fromHex p, fromHex t with
+    | some p, some t => (match Fs.symlink s.fs t (Server.fsPath p) with | .ok f => some { s with fs := f } | .error _ => none)
+    | _, _ => none
+  | _ => none
+
+def outcomeAccept : Server.Outcome → Nat
+  | .res _ => 0 | .progUnavail => 1 | .progMismatch => 2 | .procUnavail => 3 | .garbageArgs => 4
+
+def srvCmd (st : St) : List String → St × String
+  | ["new", transfer, ro, maxfile, squash, attrTtl, attrSize, neg, negTtl, dc, dcTtl, dcMax, dcMaxDir, maxH, verf] =>
+    match transfer.toNat?, ro.toNat?, maxfile.toInt?, fromHex squash, attrTtl.toNat?, attrSize.toNat?, neg.toNat?, negTtl.toNat?,
+          dc.toNat?, dcTtl.toNat?, dcMax.toNat?, dcMaxDir.toNat?, maxH.toInt?, fromHex verf with
+    | some transfer, some ro, some maxfile, some squash, some attrTtl, some attrSize, some neg, some negTtl,
+      some dc, some dcTtl, some dcMax, some dcMaxDir, some maxH, some verf =>
+      let cfg : Server.Cfg :=
+        { transfer := transfer, readOnly := ro == 1, maxFileSize := maxfile, squash := squashMode squash,
+          maxStr := Gen.maxXdrString, fhMax := Gen.fhMax, defaultMaxHandles := Gen.defaultMaxHandles,
+          evictDivisor := Gen.evictDivisor, dcMaxDirSize := dcMaxDir, maxRecord := Gen.defaultMaxRecordSize,
+          writeVerf := verf }
+      let ac : Lru.Cache Server.Attrs :=
+        { entries := [], cap := attrSize, ttl := attrTtl, negTtl := negTtl, enableNeg := neg == 1, hitAtEq := false }
+      let dcc : Lru.Cache (List Bytes) :=
+        { entries := [], cap := dcMax, ttl := dcTtl, negTtl := 0, enableNeg := false, hitAtEq := true }
+      let s : Server.St :=
+        { fs := Fs.empty 67108864, hs := Handles.init maxH, nodes := [], ac := ac,
+          dc := if dc == 1 then some dcc else none, excl := [], cfg := cfg }
+      ({ st with srv := some s }, "ok")
+    | _, _, _, _, _, _, _, _, _, _, _, _, _, _ => (st, "bad-op")
+  | "seed" :: rest => match st.srv with
+    | some s => (match srvSeed s rest with | some s' => ({ st with srv := some s' }, "ok") | none => (st, "seed-failed"))
+    | none => (st, "bad-op")
+  | ["ro", v] => match st.srv, v.toNat? with
+    | some s, some v => ({ st with srv := some { s with cfg := { s.cfg with readOnly := v == 1 } } }, "ok")
+    | _, _ => (st, "bad-op")
+  | ["maxfile", v] => match st.srv, v.toInt? with
+    | some s, some v => ({ st with srv := some { s with cfg := { s.cfg with maxFileSize := v } } }, "ok")
+    | _, _ => (st, "bad-op")
+  | ["dump"] => match st.srv with
+    | some s => (st, fsDump s.fs)
+    | none => (st, "bad-op")
+  | ["call", now, flavor, uid, gid, aux, prog, vers, proc, args, accept, data] =>
+    match st.srv, now.toNat?, flavor.toNat?, uid.toNat?, gid.toNat?, parseNatList aux, prog.toNat?, vers.toNat?, proc.toNat?,
+          fromHex args, accept.toNat?, fromHex data with
+    | some s, some now, some flavor, some uid, some gid, some aux, some prog, some vers, some proc, some args, some accept, some data =>
+      let ident : Identity := if flavor = 1 then squash s.cfg.squash { uid := uid, gid := gid, aux := aux }
+                              else { uid := nobody, gid := nobody, aux := [] }
+      let ctx : Server.Ctx := { now := now, uid := ident.uid, gid := ident.gid, aux := ident.aux }
+      let (s', out) := Server.handle s ctx prog vers proc args
+      let st' := { st with srv := some s' }
+      match out with
+      | .res r =>
+        if accept ≠ 0 then (st', s!"DIFF model=accepted status={r.status} impl=accept_stat {accept}")
+        else (match Rfc.decResWith false prog proc data with
+          | none => (st', s!"DIFF model={reprStr r} impl=undecodable {toHex data}")
+          | some r' => if r' = r then (st', "match") else (st', s!"DIFF model={reprStr r} impl={reprStr r'}"))
+      | o => if accept = outcomeAccept o then (st', "match") else (st', s!"DIFF model=accept_stat {outcomeAccept o} impl=accept_stat {accept}")
+    | _, _, _, _, _, _, _, _, _, _, _, _ => (st, "bad-op")
+  | _ => (st, "bad-op")
+
 def rlCmd (st : St) : List String → St × String
   | ["bucket", name, n, d, burst, now] =>
     match n.toNat?, d.toNat?, burst.toNat?, now.toNat? with
@@ -623,6 +698,7 @@ def step (st : St) (line : String) : St × String :=
   | "tls" :: args => (st, tlsCmd args)
   | "pool" :: args => (st, poolCmd args)
   | "drain" :: args => drainCmd st args
+  | "srv" :: args => srvCmd st args
   | "conns" :: args => (st, connsCmd args)
   | "fs" :: args => fsCmd st args
   | ["reset"] => ({}, "ok")
